@@ -202,6 +202,9 @@ pub fn run_sb_check(id: &str, tier: &str, seed: u64) -> i32 {
             // sampled handful of expiry points per position
             let n5 = if quick { 16 } else { 400 };
             a.merge(report::par_acc(n5, |r| sb_checks::run_c07_c18(seed, r, &format!("{}-d5", id), c07, c18, 5, 1)));
+            // closed shuffles: all iterations up to MAX_DEPTH (per-ply tables at large ply numbers)
+            let nsh = if quick { 12 } else { 240 };
+            a.merge(report::par_acc(nsh, |r| sb_checks::run_c07_c18_shuffle(seed, r, &format!("{}-shuffle", id), c07, c18)));
             if c18 {
                 // stream view over whole sessions (what a GUI sees between go and bestmove)
                 let ns = if quick { 4_000 } else { 150_000 };
